@@ -1,0 +1,108 @@
+//go:build verif
+
+package keeper
+
+// Contracts for the deductive checker in /verif (comment-only; compiled only with -tags verif).
+// C05 / C02: the keeper methods behind the interface statedb.Keeper, stated in the vocabulary of the interface contracts that
+// StateDB.Commit is proved against (x/evm/statedb/zz_contracts_c05_verif.go: evm_store[a][k]) and verified against the raw prefix-store
+// model (verif/specs/c19evm_pre). The link is the definition EvmSlot / EvmAbs of verif/specs/c05ks/66_keeperstore.spec: a value S of
+// the interface's sort EvmStore represents the raw store iff S[a][k] == EvmSlot(ps_has, ps_val, a, k) everywhere. Each contract below is
+// quantified (ghostvar) over ALL representations of the entry / exit state, so it reads exactly like the interface contract with
+// evm_store := S. The c19 contracts of SetState / SetCode / GetCode (raw-store effect) are extended, not replaced.
+
+/*@
+// ---- bridging lemmas (pure facts about the linking definition; no code involved)
+// the representation is unique: evm_store is a FUNCTION of the raw store, so "evm_store" in the interface contracts is well defined
+lemma EvmAbsUnique(s EvmStore, t EvmStore, h PsHas, v PsVal)
+    requires EvmAbs(s, h, v) && EvmAbs(t, h, v)
+    ensures s == t
+// the pointwise form of a one-slot update is the interface's `upd` form (array extensionality)
+lemma EvmOneSlot(s0 EvmStore, s1 EvmStore, a0 Addr20, k0 Hash32, x Hash32)
+    requires forall a Addr20, k Hash32 :: s1[a][k] == ite(a == a0 && k == k0, x, s0[a][k])
+    ensures s1 == upd(s0, a0, upd(s0[a0], k0, x))
+// a raw write outside every storage prefix (e.g. under the code prefix) leaves the represented store unchanged
+lemma EvmAbsOtherPrefix(s EvmStore, h PsHas, v PsVal, p Bytes, hp KHas, vp KVal)
+    requires EvmAbs(s, h, v) && (forall a Addr20 :: st_prefix(a) != p)
+    ensures EvmAbs(s, upd(h, p, hp), upd(v, p, vp))
+
+// interface: `ensures result == evm_store[addr][key]`; a read (no modifies: the frame obligations prove that nothing changes)
+func (*Keeper).GetState
+    ghostvar S EvmStore
+    ensures raw: result == EvmSlot(ps_has, ps_val, addr, key)
+    ensures c05_read: EvmAbs(S, ps_has, ps_val) ==> result == S[addr][key]
+
+// interface: `modifies evm_store; ensures written: evm_store == upd(old(evm_store), addr, upd(old(evm_store)[addr], key, bytes_to_hash(value)))`
+// - exactly one slot of exactly one contract changes; an empty value deletes the entry, which then reads as the zero hash == BytesToHash(empty)
+extend func (*Keeper).SetState
+    ghostvar S0 EvmStore
+    ghostvar S1 EvmStore
+    ensures c05_pointwise: forall a Addr20, h Hash32 :: EvmSlot(ps_has, ps_val, a, h)
+            == ite(a == addr && h == key, b2h(value), EvmSlot(old(ps_has), old(ps_val), a, h))
+    ensures c05_written: EvmAbs(S0, old(ps_has), old(ps_val)) && EvmAbs(S1, ps_has, ps_val) ==> S1 == upd(S0, addr, upd(S0[addr], key, b2h(value)))
+    // a slot that was written reads back (GetState after SetState), whatever else is in the store
+    ensures c05_readback: EvmSlot(ps_has, ps_val, addr, key) == b2h(value)
+
+// interface: SetCode `ensures true` without a modifies clause - contract storage (evm_store) is not touched by a code write
+extend func (*Keeper).SetCode
+    ghostvar S0 EvmStore
+    ghostvar S1 EvmStore
+    ensures c05_storage_kept: forall a Addr20, h Hash32 :: EvmSlot(ps_has, ps_val, a, h) == EvmSlot(old(ps_has), old(ps_val), a, h)
+    ensures c05_store_same: EvmAbs(S0, old(ps_has), old(ps_val)) && EvmAbs(S1, ps_has, ps_val) ==> S1 == S0
+// interface: GetCode `ensures true`, a read: nothing changes (frame obligations); the c19 contract gives the bytes
+
+// interface: ForEachStorage(ctx, addr, cb). The callback is shown the entries of the storage of addr as they were at the call, in store
+// order, one after the other without gaps or repetitions, key = the 32 stored key bytes as a hash, value = BytesToHash(stored bytes) -
+// for a non-empty stored value that is evm_store[addr][key] of the entry state; the iteration ends at the end of the storage or when
+// the callback returns false. (Callbacks may write the store: DeleteAccount's deletes the slot it is shown.)
+extend func (*Keeper).ForEachStorage
+    let p = st_prefix(addr)
+    let it = ret(KVStorePrefixIterator, 1, 0)
+    let h0 = old(ps_has)[st_prefix(addr)]
+    let v0 = old(ps_val)[st_prefix(addr)]
+    let seq = ps_enum(p, h0, v0)
+    requires keys32: forall kk Bytes :: ps_has[st_prefix(addr)][kk] ==> len(kk) == 32
+    modifies ps_has, ps_val, pm_bz, iter_pos, cb_calls
+    call cb contract c05ks.storage_callback
+    call cb requires entry: 0 <= iter_pos[it] && iter_pos[it] < kv_len(seq) && kv_len(seq) == enum_len(h0)
+            && key == b2h(enum_rel(h0, iter_pos[it])) && value == b2h(v0[enum_rel(h0, iter_pos[it])])
+    call cb requires c05_entry: hash_bytes(key) == enum_rel(h0, iter_pos[it]) && (len(v0[hash_bytes(key)]) != 0 ==> value == EvmSlot(old(ps_has), old(ps_val), addr, key))
+    call cb requires stored: hash_bytes(key) == enum_rel(h0, iter_pos[it]) && old(ps_has)[st_prefix(addr)][hash_bytes(key)]
+    loop 1 invariant seq: it != nil && iter_seq(it) == seq && 0 <= iter_pos[it] && iter_pos[it] <= kv_len(seq)
+    loop 1 invariant args: addr == old(addr) && cb == old(cb)
+    // every entry before the current position has been shown to the callback exactly once (cb_calls: ghost counter of callback invocations)
+    loop 1 invariant each_once: cb_calls == old(cb_calls) + iter_pos[it]
+    ensures done: iter_pos[it] == kv_len(seq) || !ret(cb, 1, 0)
+    ensures each_once: cb_calls == old(cb_calls) + iter_pos[it] || (!ret(cb, 1, 0) && cb_calls == old(cb_calls) + iter_pos[it] + 1)
+@*/
+/*@
+// SetBalance in this part: only "does not touch the EVM module's store" (no modifies clause; verified against the body with the bank
+// keeper's A-store-isolation specs). Its effect on balances and supply is proved in the C02 part.
+func (*Keeper).SetBalance
+    requires nonnil: k != nil && amount != nil && k.bankKeeper != nil
+    ensures true
+
+// interface: DeleteAccount `modifies .. evm_store; ensures others: forall a :: a != addr ==> evm_store[a] == old(evm_store)[a]` - only
+// the slots of the deleted account may change. Proved here, and more: when the account exists and the deletion succeeds EVERY slot of
+// addr reads as the zero hash afterwards (the storage is cleared: the callback deletes each entry the iteration shows, and the
+// iteration shows every entry); a refused deletion and the deletion of a missing account leave the whole store unchanged.
+func (*Keeper).DeleteAccount
+    let p = st_prefix(addr)
+    let it = ret(KVStorePrefixIterator, 1, 0)
+    let h0 = old(ps_has)[st_prefix(addr)]
+    let v0 = old(ps_val)[st_prefix(addr)]
+    let seq = ps_enum(p, h0, v0)
+    ghostvar S0 EvmStore
+    ghostvar S1 EvmStore
+    requires nonnil: k != nil && k.bankKeeper != nil && k.accountKeeper != nil
+    requires keys32: forall kk Bytes :: ps_has[st_prefix(addr)][kk] ==> len(kk) == 32
+    modifies ps_has, ps_val, iter_pos
+    loop 1 invariant seq: it != nil && iter_seq(it) == seq && 0 <= iter_pos[it] && iter_pos[it] <= kv_len(seq) && kv_len(seq) == enum_len(h0)
+    loop 1 invariant args: addr == old(addr) && k == old(k) && ctx == old(ctx)
+    loop 1 invariant others: ps_val == old(ps_val) && (forall q Bytes :: q != p ==> ps_has[q] == old(ps_has)[q])
+    // (the last conjunct follows from h0[kk] by A-enum-complete; it is spelled out so that the enumeration axioms are in scope)
+    loop 1 invariant mine: forall kk Bytes :: ps_has[p][kk] == (h0[kk] && iter_pos[it] <= enum_idx(h0, kk) && enum_rel(h0, enum_idx(h0, kk)) == kk)
+    ensures c05_others: forall a Addr20, h Hash32 :: a != addr ==> EvmSlot(ps_has, ps_val, a, h) == EvmSlot(old(ps_has), old(ps_val), a, h)
+    ensures c05_others_abs: EvmAbs(S0, old(ps_has), old(ps_val)) && EvmAbs(S1, ps_has, ps_val) ==> (forall a Addr20 :: a != addr ==> S1[a] == S0[a])
+    ensures c05_cleared: result == nil && ret(GetAccount, 1, 0) != nil ==> (forall h Hash32 :: EvmSlot(ps_has, ps_val, addr, h) == zero_hash32())
+    ensures c05_kept: result != nil || ret(GetAccount, 1, 0) == nil ==> ps_has == old(ps_has) && ps_val == old(ps_val)
+@*/
